@@ -127,14 +127,33 @@ func runC18(c *Ctx) {
 		// R4: names
 		loops := loopsOf(nhr)
 		bad = ""
-		var inLoop, bare *Effect
+		// the appends that feed the Hostnames field (directly, or through a local list stored at
+		// the end), as pseudo effects: condition, appended element, site
+		type nameApp struct {
+			Cond Ref
+			Val  *E // append<elems>(...)
+			Ins  ssa.Instruction
+		}
+		var inLoop, bare *nameApp
 		for i := range s.Effects {
 			ef := &s.Effects[i]
-			if ef.Kind == "store" && ef.Addr.Op == "faddr" && ef.Addr.Aux == "Hostnames" && ef.Val.Op == "append" && ef.Val.Aux == "elems" {
-				if innermostLoop(loops, ef.Ins.Block()) != nil {
-					inLoop = ef
+			if !(ef.Kind == "store" && ef.Addr.Op == "faddr" && ef.Addr.Aux == "Hostnames") {
+				continue
+			}
+			st, ok := ef.Ins.(*ssa.Store)
+			if !ok || ef.Act == nil {
+				continue
+			}
+			ems, _ := traceAppends(g, AV{ef.Act, st.Val})
+			for _, em := range ems {
+				if len(em.Elems) != 1 || em.Act != s {
+					continue
+				}
+				na := &nameApp{Cond: em.RC, Val: em.Act.Env[em.Call], Ins: em.Call}
+				if innermostLoop(loops, em.Call.Block()) != nil {
+					inLoop = na
 				} else {
-					bare = ef
+					bare = na
 				}
 			}
 		}
@@ -176,8 +195,12 @@ func runC18(c *Ctx) {
 			}
 			okIP := false
 			for _, ef := range s.Effects {
-				if ef.Kind == "store" && ef.Addr.Op == "faddr" && ef.Addr.Aux == "IP" && ef.Cond == bare.Cond && ef.Val.Op == "call" && ef.Val.Aux == "net/netip.IPv4Unspecified" {
-					okIP = true
+				if ef.Kind == "store" && ef.Addr.Op == "faddr" && ef.Addr.Aux == "IP" && u.bdd.And(ef.Cond, bare.Cond) != False {
+					// the address stored for this form (stored on the spot, or kept in a local until the rule is built)
+					v := u.Specialize(ef.Val, bare.Cond)
+					if v.Op == "call" && v.Aux == "net/netip.IPv4Unspecified" {
+						okIP = true
+					}
 				}
 			}
 			if el != first || isDom == False || !u.bdd.Implies(bare.Cond, isDom) || !okIP {
